@@ -22,6 +22,7 @@ sys.path.insert(0, os.path.dirname(os.path.abspath(__file__)))
 import c05_instr  # noqa: E402
 from c05_instr import airq, ispec, masmsym, opsum  # noqa: E402
 from field import P  # noqa: E402
+from mir_parse import Unsupported  # noqa: E402
 from common import Verdict, repo_fingerprint, save_replay, tier, write_evidence  # noqa: E402
 
 PROP = "C09"
@@ -86,7 +87,16 @@ def _honest_worker(args):
         it.info["v0"] = v0
 
     try:
-        paths = masmsym.run_mast(interp, meta, root, overflow_items=2, pre=pre)
+        try:
+            paths = masmsym.run_mast(interp, meta, root, overflow_items=2, pre=pre)
+        except Unsupported:
+            # branch feasibility hit the solver caps (typically under machine load): one retry with generous caps
+            saved = (interp.timeout_ms, interp.feas_first_ms)
+            interp.timeout_ms, interp.feas_first_ms = 180000, 30000
+            try:
+                paths = masmsym.run_mast(interp, meta, root, overflow_items=2, pre=pre)
+            finally:
+                interp.timeout_ms, interp.feas_first_ms = saved
     except Exception as e:
         # the run with a symbolic out-of-range hint sometimes exceeds the branch-feasibility caps: reported as
         # not covered (it is an extra on top of the per-hint runs), never as a verdict
